@@ -140,8 +140,12 @@ impl Check for C09 {
 				loops.push(Some((n / 2, usize::MAX)));
 			}
 			loops.dedup();
-			for start in 0..n {
+			for start in 0..n + 3 {
 				for lp in &loops {
+					// at / beyond the end only with a loop region (one empty frame, then the loop; both sounds share the transport rule)
+					if start >= n && (lp.is_none() || start == n + 1) {
+						continue;
+					}
 					for &chunk in &CHUNKS {
 						// beyond the depth bound: a few scripted histories in which a parameter is in motion while the sound waits
 						let scripts: [&[usize]; 4] = [&[1, 3, 0, 5], &[7, 4, 0, 0, 5], &[1, 4, 5], &[2, 3, 0, 0, 5]];
@@ -157,21 +161,29 @@ impl Check for C09 {
 									x /= LETTERS.len() as u64;
 								}
 							}
-							let sc = Sc {
-								len,
-								rate,
-								packets: PACKETS[p],
-								gran: GRANS[g],
-								slice,
-								start,
-								lp: *lp,
-								chunk,
-								hist,
-							};
-							ctx.evals += 1;
-							ctx.traces += 1;
-							if let Err(pn) = catch(|| run(&sc, ctx)) {
-								ctx.fail(format!("panic: {} :: scenario", pn), sc.desc());
+							// a device callback of three internal buffers (on_start_processing once, three process passes): from the
+							// first start position only
+							for passes in [1usize, 3] {
+								if passes == 3 && start != 0 {
+									continue;
+								}
+								let sc = Sc {
+									len,
+									rate,
+									packets: PACKETS[p],
+									gran: GRANS[g],
+									slice,
+									start,
+									lp: *lp,
+									chunk,
+									hist: hist.clone(),
+									passes,
+								};
+								ctx.evals += 1;
+								ctx.traces += 1;
+								if let Err(pn) = catch(|| run(&sc, ctx)) {
+									ctx.fail(format!("panic: {} :: scenario", pn), sc.desc());
+								}
 							}
 						}
 					}
@@ -191,11 +203,13 @@ struct Sc {
 	lp: Option<(usize, usize)>,
 	chunk: usize,
 	hist: Vec<usize>,
+	/// process passes per callback (on_start_processing runs once per callback)
+	passes: usize,
 }
 impl Sc {
 	fn desc(&self) -> String {
 		format!(
-			"len={} rate={} packets={:?} seek_granularity={} slice={:?} start={} loop={:?} chunk={} history=[{}]",
+			"len={} rate={} packets={:?} seek_granularity={} slice={:?} start={} loop={:?} chunk={} x {} pass(es) per callback history=[{}]",
 			self.len,
 			self.rate,
 			self.packets,
@@ -204,6 +218,7 @@ impl Sc {
 			self.start,
 			self.lp,
 			self.chunk,
+			self.passes,
 			self.hist.iter().map(|l| LETTERS[*l]).collect::<Vec<_>>().join("; ")
 		)
 	}
@@ -290,7 +305,7 @@ fn run(sc: &Sc, ctx: &mut Ctx) {
 	};
 	let mut ht: Box<dyn SoundHandle> = Box::new(ht);
 	let info = MockInfoBuilder::new().build();
-	let ncb = sc.hist.len() + (2 * sc.len + 10) / sc.chunk + 2;
+	let ncb = sc.hist.len() + (2 * sc.len + 10) / (sc.chunk * sc.passes) + 2;
 	let ncb = ncb.min(24);
 	let mut so = vec![Frame::ZERO; sc.chunk];
 	let mut to = vec![Frame::ZERO; sc.chunk];
@@ -304,7 +319,7 @@ fn run(sc: &Sc, ctx: &mut Ctx) {
 			apply(hs.as_mut(), l);
 			apply(ht.as_mut(), l);
 		}
-		pacer::step(first, (sc.chunk as f64 * sc.rate.max(1.0)).ceil() as u64 + 8);
+		pacer::step(first, ((sc.chunk * sc.passes) as f64 * sc.rate.max(1.0)).ceil() as u64 + 8);
 		ss.on_start_processing();
 		ts.on_start_processing();
 		// positions (published at the start of the callback)
@@ -325,6 +340,7 @@ fn run(sc: &Sc, ctx: &mut Ctx) {
 				break;
 			}
 		}
+		for _pass in 0..sc.passes {
 		so.fill(Frame::new(f32::NAN, f32::NAN));
 		to.fill(Frame::new(f32::NAN, f32::NAN));
 		ss.process(&mut so, 1.0, &info);
@@ -348,6 +364,10 @@ fn run(sc: &Sc, ctx: &mut Ctx) {
 				failed = true;
 				break;
 			}
+		}
+		if failed {
+			break;
+		}
 		}
 		if failed {
 			break;
